@@ -295,3 +295,27 @@ func ReferenceSum[T any](ops Ops[T], shares []T) Flat {
 	}
 	return f
 }
+
+// FoldOrMerge searches the lattice (search=true) or folds the shares in index order with the
+// implementation's AggregateShares, still checked against the reference sum.
+func FoldOrMerge[T any](c *engine.Chooser, ops Ops[T], shares []T, s Search, search bool) (T, bool) {
+	if search {
+		return Merge(c, ops, shares, s)
+	}
+	want := CloneFlat(ReferenceSum(ops, shares))
+	acc := shares[0]
+	for i := 1; i < len(shares); i++ {
+		out := ops.New()
+		err, pan := uni.Try(func() error { return ops.Agg(acc, shares[i], &out) })
+		if err != nil || pan != nil {
+			c.Fail(ops.Sig+"/AggregateShares/panic", "index-order fold: err=%v panic=%v", err, pan)
+			return acc, false
+		}
+		acc = out
+	}
+	if same, why := ops.Flat(acc).Equal(want); !same {
+		c.Fail(ops.Sig+"/AggregateShares/not-the-sum", "index-order fold differs from the coefficient-wise sum: %s", why)
+		return acc, false
+	}
+	return acc, true
+}
